@@ -54,13 +54,13 @@ def run_set(mset, backends=('json',), genTexts=False, textFilter=None, seps=None
         try:
             trees = parser(dialect or dialect_of(m)).parse(text)
             out.trees[name] = trees[0]
-        except error.PySmiError as e:
+        except Exception as e:   # a foreign exception is a failure to compile just as well (reported with its type)
             out.errors[(name, 'parse')] = e
             continue
         try:
             info, st = SymtableCodeGen().genCode(out.trees[name], out.symtab)
             out.symtab[info.name] = st
-        except error.PySmiError as e:
+        except Exception as e:   # a foreign exception is a failure to compile just as well (reported with its type)
             out.errors[(name, 'symtable')] = e
     for m in mset['modules']:
         name = m['name']
@@ -76,7 +76,7 @@ def run_set(mset, backends=('json',), genTexts=False, textFilter=None, seps=None
                 out.json_text[name] = text
                 out.json_info[name] = info
                 out.json[name] = json.loads(text)
-            except error.PySmiError as e:
+            except Exception as e:   # a foreign exception is a failure to compile just as well (reported with its type)
                 out.errors[(name, 'json')] = e
             except ValueError as e:
                 out.errors[(name, 'json-syntax')] = e
@@ -86,7 +86,7 @@ def run_set(mset, backends=('json',), genTexts=False, textFilter=None, seps=None
                                                      comments=['c1'], **kw)
                 out.py_text[name] = text
                 out.py_info[name] = info
-            except error.PySmiError as e:
+            except Exception as e:   # a foreign exception is a failure to compile just as well (reported with its type)
                 out.errors[(name, 'pysnmp')] = e
     return out
 
